@@ -52,7 +52,7 @@ def run(ctx):  # noqa: C901, PLR0912, PLR0915
     for n, c in hs:
         facts = g.facts_at(n)
         # the tested id is whatever local / expression stands left of `in self._known_message_ids`
-        tested = [t[:-len(' in self._known_message_ids')] for t, p in facts if p is False
+        tested = [t[:-len(' in self._known_message_ids')] for t, p in facts.both() if p is False
                   and t.endswith(' in self._known_message_ids')]
         ok = bool(tested) and any(g.dominates(r, n) for r in regs)
         ctx.ob('C14.R1', 'known ids are skipped', ok,
@@ -127,6 +127,9 @@ def run(ctx):  # noqa: C901, PLR0912, PLR0915
     EPR, EQ, GT = '$1.epr', f'$1.metadata_version == {K}.metadata_version', f'$1.metadata_version > {K}.metadata_version'
     w = worlds_of(g, extra_atoms=(EPR, K, EQ, GT), symbolic=True)
     sane = w.mask(f'not (({EQ}) and ({GT}))')   # the two comparisons exclude each other
+    if w.has_atom(f'{K} is None'):
+        # a stored announcement is an object (always true): "there is none" may be tested as `not K` or as `K is None`
+        sane &= w.all & ~(w.mask(f'{K} is None') ^ (w.all & ~w.mask(K)))
     stores = [n for n in g.real_nodes() if n.kind == 'stmt' and isinstance(n.stmt, ast.Assign) and
               g.symbolic_text(n, n.stmt.targets[0]) == 'self._remote_services[$1.epr]']
     kinds = w.describe(w.cond_any(stores) & sane) if stores else 'never'
@@ -145,13 +148,15 @@ def run(ctx):  # noqa: C901, PLR0912, PLR0915
            witness=w.describe(w.cond_any(merges) & sane) if merges else None)
     dels = [n for n in g.real_nodes() if n.kind == 'stmt' and isinstance(n.stmt, ast.Delete)] + g.nodes_calling('pop')
     ctx.ob('C14.R3', 'no removal on announcements', not dels, '_add_remote_service never removes an entry', fi=ar)
-    eprg = [n for n in g.nodes if n.kind == 'return' and ('$1.epr', False) in g.facts_symbolic(n)]
-    ctx.ob('C14.R3', 'announcement without epr ignored', bool(eprg), 'an announcement without epr is ignored', fi=ar)
+    # without an epr nothing is stored and nothing is merged (early return or one if/elif chain: the path condition decides)
+    no_epr_writes = w.cond_any(stores + merges) & (w.all & ~w.mask(EPR)) if (stores or merges) else 0
+    ctx.ob('C14.R3', 'announcement without epr ignored', bool(stores) and no_epr_writes == 0,
+           'an announcement without epr is ignored', fi=ar)
     bye = repo.func(f'{W}.WSDiscovery._handle_received_bye')
     src = xsrc(bye)
     rm = repo.func(f'{W}.WSDiscovery._remove_remote_service')
     ok = 'self._remove_remote_service(bye.EndpointReference.Address)' in src and \
-        bool(re.search(r'del self\._remote_services\[\w+\]', xsrc(rm)))
+        bool(re.search(r'del self\._remote_services\[\w+\]|self\._remote_services\.pop\(\w+(, None)?\)', xsrc(rm)))
     ctx.ob('C14.R3', 'Bye removes', ok, 'a Bye removes the entry of its endpoint reference', fi=bye)
     for h, cls_ in (('_handle_received_hello', 'hello'), ('_handle_received_resolve_matches', 'match')):
         fi = repo.func(f'{W}.WSDiscovery.{h}')
@@ -164,12 +169,36 @@ def run(ctx):  # noqa: C901, PLR0912, PLR0915
            'metadata_version=match.MetadataVersion' in src and 'self._add_remote_service(service)' in src,
            'every ProbeMatch is recorded with its MetadataVersion', fi=pm)
 
+    # the version that is compared is the version that was announced: Service keeps the constructor argument unchanged
+    # (0 is a version; `metadata_version or 1` would record it as 1 and merge the next announcement instead of replacing)
+    sv = repo.func('sdc11073.wsdiscovery.service.Service.__init__')
+    st_ = [n for n in walk_no_nested(sv.node) if isinstance(n, ast.Assign) and unparse(n.targets[0]) == 'self.metadata_version']
+    ok = len(st_) == 1 and isinstance(st_[0].value, ast.Name) and st_[0].value.id == 'metadata_version' and \
+        not [n for n in walk_no_nested(sv.node) if isinstance(n, (ast.Assign, ast.AugAssign)) and
+             unparse(n.targets[0] if isinstance(n, ast.Assign) else n.target) == 'metadata_version']
+    ctx.ob('C14.R3', 'Service records the announced version', ok,
+           'Service.__init__ stores metadata_version as given' if ok else
+           'Service.__init__ changes the announced metadata version before storing it: version comparison in '
+           '_add_remote_service works on a different number than the one announced (version 0 vs. 1)', fi=sv)
     # ------------------------------------------------------------------ R4
     rs = repo.func(f'{W}.WSDiscovery._handle_received_resolve')
     g = cfg_of(rs)
     sm = g.nodes_calling('_send_resolve_match')
-    ok = bool(sm) and all(('epr in self._local_services', True) in g.facts_at(n) for n, _ in sm) and \
-        'epr = resolve.EndpointReference.Address' in xsrc(rs)
+    # the answered service is the local service stored under the epr of the Resolve: `d[epr]` under `epr in d`, or
+    # `d.get(epr)` under "is not None" - locals written out
+    def _resolve_guard(n, c):
+        if not c.args:
+            return False
+        svc = g.symbolic_text(n, c.args[0])
+        fs = g.facts_symbolic(n)
+        m = re.fullmatch(r'self\._local_services\[(.+)\]', svc)
+        if m:
+            return m.group(1).endswith('.EndpointReference.Address') and (f'{m.group(1)} in self._local_services', True) in fs
+        m = re.fullmatch(r'self\._local_services\.get\((.+)\)', svc)
+        if m:
+            return m.group(1).endswith('.EndpointReference.Address') and ((f'{svc} is None', False) in fs or (svc, True) in fs)
+        return False
+    ok = bool(sm) and all(_resolve_guard(n, c) for n, c in sm)
     ctx.ob('C14.R4', 'Resolve guard', ok, 'a ResolveMatches is sent only for an epr of the locally published services',
            fi=rs)
     pr = repo.func(f'{W}.WSDiscovery._handle_received_probe')
